@@ -211,9 +211,11 @@ def run(ctx):
     ctx.phase("generation")
     jobs = []      # (group id, kind, input, cfg, learner)
     groups = []
-    nb, nc, npn = (6, 8, 12) if ctx.quick else (40, 40, 36)
+    nb, nc, npn = (8, 8, 12) if ctx.quick else (40, 40, 36)
     for j in range(nb):
         inp = brew_input(rng, j)
+        if j % 4 == 2:
+            inp["ensemble"] = True        # ensemble mode: every fold model scores every chunk, the scores are averaged
         if j % 4 == 1:
             inp["est"] = "proba"          # an estimator without decision_function (predict_proba only, no calibration)
         if j % 4 == 3:
